@@ -23,7 +23,7 @@ SHARDS = {"quick": 6, "thorough": 16}
 TIMEOUT = {"quick": 900, "thorough": 3400}
 OP = "shared_input"
 RULE = (
-    "generated IRs (with/without return entry, with/without a carried function body) x sequences with repetition of "
+    "every conversion alone on fresh copies twice in opposite orders; classes with __call__ also without a body; returned expressions over parameters; generated IRs (with/without return entry, with/without a carried function body) x sequences with repetition of "
     "emit calls over {rest,numpydoc,google,class,function,method,argparse} sharing ONE IR object: all 7^2 pairs for "
     "every IR, plus sequences of length 3 and 4 (thorough: all 343 + 2401 enumerated over the IR pool; quick: sampled); "
     "each call's text is compared with the text of the same call on a fresh deep copy; icontract snapshot/ensure "
